@@ -29,11 +29,15 @@ def check(ctx, R):
         rule_guarded_by(ctx, R, roles, li, GUARDED_BY_IO, roles.io_cls)
         rule_guarded_by(ctx, R, roles, li, GUARDED_BY_DEV, roles.dev_cls)     # two streams with one local id would receive each other's packets
         rule_with_only(ctx, R, roles, li)
+        from ..locks import rule_lock_objects
+        rule_lock_objects(ctx, R, roles, li)
         rule_order(ctx, R, roles, li)
         rule_deny(ctx, R, roles, li)
         _pump(ctx, R, roles, li, T)
     _args_match(ctx, R, T)
     _nd_park(ctx, R)
+    from .c19 import store_lifetime_rules
+    store_lifetime_rules(ctx, R)       # a parked packet must stay retrievable until its stream is closed
     arg_rule(ctx, R, "ids", "ARG-ids", min_count=4)
     R.assume("threading.Lock / asyncio.Lock are non-reentrant mutual-exclusion locks; `with` releases on every exit")
     R.undecided("'for all interleavings ... same result as alone, no deadlock in any schedule': schedules are a run-time quantity; only lock-order / guarded-by / re-check / no-drop necessary conditions are static")
